@@ -27,6 +27,7 @@ check requires 0) and explained in the notes.
 from __future__ import annotations
 
 import ast
+import re
 import os
 from typing import Any
 
@@ -61,6 +62,7 @@ class Cls:
         self.shared_attr: str | None = None
         self.mode_attr: str | None = None  # boolean attribute set from the ctor's single_connection parameter
         self.module_funcs: set[str] = set()
+        self.module_defs: dict[str, ast.AST] = {}
         self.unknowns = 0
         self.notes = notes
         try:
@@ -68,7 +70,10 @@ class Cls:
         except (OSError, SyntaxError) as e:
             self.unknown(f"cannot parse {rel}: {e!r}")
             return
+        self.module_defs: dict[str, ast.AST] = {}
         for n in tree.body:
+            if isinstance(n, (ast.FunctionDef, ast.AsyncFunctionDef)):
+                self.module_defs[n.name] = n
             if isinstance(n, ast.ClassDef) and n.name == name:
                 for f in n.body:
                     if isinstance(f, (ast.FunctionDef, ast.AsyncFunctionDef)):
@@ -808,8 +813,57 @@ def lock_scope(ss: "Cls") -> tuple[bool, list[str], str]:
     return False, methods, f"self.{attr} is assigned {[(a[0], ast.unparse(a[1]) if a[1] is not None else None) for a in assigns]}"
 
 
+# --------------------------------------------------------------------------
+# connection-scoped objects (TEMP schema, ATTACH, PRAGMA): state that lives as long as the connection does
+
+SCRATCH_RE = re.compile(
+    r"\b(?:temp|temporary)\s+(?:table|view|trigger|index)\b|\btemp\s*\.|\bsqlite_temp_(?:master|schema)\b"
+    r"|\battach\b|\bdetach\b|\bpragma\b", re.I)
+
+
+def _scratch_strings(fn: ast.AST) -> list[str]:
+    """string constants (incl. the constant parts of f-strings, nested functions) of a function that mention
+    connection-scoped objects; the docstring is not SQL"""
+    doc = None
+    body = getattr(fn, "body", [])
+    if body and isinstance(body[0], ast.Expr) and isinstance(body[0].value, ast.Constant) and isinstance(body[0].value.value, str):
+        doc = body[0].value
+    return [n.value for n in ast.walk(fn)
+            if isinstance(n, ast.Constant) and isinstance(n.value, str) and n is not doc and SCRATCH_RE.search(n.value)]
+
+
+def scratch_sections(cls: "Cls", sec_names: list[str]) -> dict[str, list[str]]:
+    """section name -> offending strings, over the section function and every method of the class / function of the module
+    it can reach (helpers are handed the connection; a helper that stages rows in a TEMP table does so on the section's
+    connection)"""
+    methods = cls.all_methods()
+    names = set(methods)
+    out: dict[str, list[str]] = {}
+    for sec in sec_names:
+        seen: list[str] = []
+        todo = [("m", sec)]
+        hits: list[str] = []
+        while todo:
+            kind, n = todo.pop()
+            if (kind + n) in seen:
+                continue
+            seen.append(kind + n)
+            fn = methods.get(n) if kind == "m" else cls.module_defs.get(n)
+            if fn is None or (kind == "m" and n in ("__init__",)):
+                continue
+            hits += _scratch_strings(fn)
+            for x in _self_refs(fn, names):
+                todo.append(("m", x))
+            for x in ast.walk(fn):
+                if isinstance(x, ast.Call) and isinstance(x.func, ast.Name) and x.func.id in cls.module_defs:
+                    todo.append(("f", x.func.id))
+        if hits:
+            out[sec] = hits
+    return out
+
+
 def extract(notes: list[str]) -> dict:
-    res: dict[str, Any] = {"unknowns": 0, "classes": {}, "secs": [], "ops": [], "static_ops": [], "flags": {}}
+    res: dict[str, Any] = {"unknowns": 0, "classes": {}, "secs": [], "ops": [], "static_ops": [], "flags": {}, "scratch": []}
     classes = [Cls(i, tag, name, rel, notes) for i, tag, name, rel in CLASSES]
     # concrete methods the workflow store inherits
     try:
@@ -891,6 +945,10 @@ def extract(notes: list[str]) -> dict:
                                 "kind": _kind_of_method(fn),
                                 "async": isinstance(fn, ast.AsyncFunctionDef),
                                 "gen": any(isinstance(x, (ast.Yield, ast.YieldFrom)) for x in ast.walk(fn))})
+        for name, hits in scratch_sections(cls, list(secs)).items():
+            res["scratch"].append(f"{cls.tag}.{name}")
+            notes.append(f"gen/sqlite_conn: section {cls.name}.{name} uses connection-scoped objects: {hits[0][:80]!r}"
+                         + (f" (+{len(hits) - 1} more)" if len(hits) > 1 else ""))
         res["classes"][cls.tag] = {"name": cls.name, "shared_attr": cls.shared_attr, "mode_attr": cls.mode_attr,
                                    "ctx_methods": sorted(n for n, f in methods.items()
                                                          if _is_ctx_provider(f) and (n == PROVIDER or _yields_connection(f))),
@@ -1005,6 +1063,10 @@ def generate(notes: list[str]) -> list[str]:
     L.append("def staticOps : List (Nat × String × List String) := [")
     L.append(",\n".join(f"  ({o['cls']}, {_lstr(o['name'])}, [{', '.join(_lstr(x) for x in o['secs'])}])" for o in r["static_ops"]))
     L.append("]")
+    L.append("/-- sections whose code (with the helpers it reaches) has SQL on connection-scoped objects: TEMP schema objects,")
+    L.append("    ATTACH / DETACH, PRAGMA -- state that lives as long as the connection, i.e. one call with per-call connections")
+    L.append("    and for ever on the persistent one -/")
+    L.append(f"def scratchSecs : List String := [{', '.join(_lstr(x) for x in r['scratch'])}]")
     L.append("end GenSqliteConn")
     return L
 
